@@ -23,11 +23,6 @@ deriving Repr
 namespace Bnd
 variable {α : Type}
 
-/-- `subscribe`: first window, `d.add(source.subscribe)`, `d.add(boundaries.subscribe)`. -/
-def init (t0 : Nat) : Bnd α :=
-  let (b, id) := ({ now := t0 } : Base α).newWin
-  { b := ((b.outerNext id).subscribe 0).subscribe 1, cur := id }
-
 /-- `on_error` / `on_completed` (shared by both sources): the current window, then the outer observer. -/
 def onEnd (s : Bnd α) (e : Option Err) : Bnd α := { s with b := (s.b.winEnd s.cur e).outerEnd e }
 
@@ -36,6 +31,17 @@ def onBoundary (s : Bnd α) : Bnd α :=
   let b := s.b.winEnd s.cur none
   let (b, id) := b.newWin
   { b := b.outerNext id, cur := id }
+
+/-- `subscribe`: first window, `d.add(source.subscribe)`, `d.add(boundaries.subscribe)`.  `bsync = some n`: the
+boundaries observable is not a hot timeline but one that delivers `n` inside its own subscribe and then stays silent
+(`BehaviorSubject(v)`: one boundary; `empty()`: completion; `throw(e)`: error). -/
+def init (t0 : Nat) (bsync : Option (Notif Unit) := none) : Bnd α :=
+  let (b, id) := ({ now := t0 } : Base α).newWin
+  match bsync with
+  | none => { b := ((b.outerNext id).subscribe 0).subscribe 1, cur := id }
+  | some (.next _) => onBoundary { b := (b.outerNext id).subscribe 0, cur := id }
+  | some .completed => onEnd { b := (b.outerNext id).subscribe 0, cur := id } none
+  | some (.error e) => onEnd { b := (b.outerNext id).subscribe 0, cur := id } (some e)
 
 def step (s : Bnd α) : Ev α → Bnd α
   | .src k n =>
@@ -160,17 +166,27 @@ structure Tgl (α : Type) where
   b : Base α := {}
   leftMap : List (Nat × Nat) := []    -- left id ↦ window id (OrderedDict)
   leftId : Nat := 0
+  /-- closing observables that fire synchronously inside their own `subscribe` (entry `j` for the j-th opening):
+  `some none` fires, `some (some e)` errors, `none` / out of range: a hot observable from the pool (or `never()`). -/
+  sync : List (Option (Option Err)) := []
 deriving Repr
 
 namespace Tgl
 variable {α : Type}
 
 /-- `subscribe`: `group.add(left.subscribe(...))`, then `group.add(right.subscribe(...))`. -/
-def init (t0 : Nat) : Tgl α := { b := (({ now := t0 } : Base α).subscribe 1).subscribe 0 }
+def init (t0 : Nat) (sync : List (Option (Option Err)) := []) : Tgl α :=
+  { b := (({ now := t0 } : Base α).subscribe 1).subscribe 0, sync := sync }
 
 /-- `for left_value in left_map.values(): left_value.on_error(e)`; `observer.on_error(e)`. -/
 def errAll (s : Tgl α) (e : Err) : Tgl α :=
   { s with b := (s.leftMap.foldl (fun b p => b.winEnd p.2 (some e)) s.b).outerEnd (some e) }
+
+/-- `expire()` of left `id`. -/
+def expire (s : Tgl α) (id : Nat) : Tgl α :=
+  match s.leftMap.find? (·.1 == id) with
+  | some (_, w) => { s with leftMap := s.leftMap.filter (·.1 != id), b := s.b.winEnd w none }
+  | none => s
 
 /-- `on_next_left(value)`. -/
 def onOpen (raiseAt : Option Nat) (pool : Nat) (s : Tgl α) : Tgl α :=
@@ -179,16 +195,14 @@ def onOpen (raiseAt : Option Nat) (pool : Nat) (s : Tgl α) : Tgl α :=
   let s := { s with b := b.outerNext w, leftId := id + 1, leftMap := s.leftMap ++ [(id, w)] }
   -- md = SingleAssignmentDisposable(); group.add(md); duration = left_duration_mapper(value)
   if raiseAt == some id then errAll s s!"cm{id}"
-  else if id < pool then
+  else match (s.sync[id]?).join with
+  | some none => expire s id          -- the duration fires inside its own subscribe: `expire()` runs at once
+  | some (some e) => errAll s e       -- … or fails at once
+  | none =>
+  if id < pool then
     -- group already disposed: md is disposed on add, the subscription is disposed as soon as it is assigned
     if s.b.rcDisposed then { s with b := (s.b.subscribe (id + 2)).unsub (id + 2) } else { s with b := s.b.subscribe (id + 2) }
   else s
-
-/-- `expire()` of left `id`. -/
-def expire (s : Tgl α) (id : Nat) : Tgl α :=
-  match s.leftMap.find? (·.1 == id) with
-  | some (_, w) => { s with leftMap := s.leftMap.filter (·.1 != id), b := s.b.winEnd w none }
-  | none => s
 
 def step (raiseAt : Option Nat) (pool : Nat) (s : Tgl α) : Ev α → Tgl α
   | .src k n =>
